@@ -1,0 +1,23 @@
+//go:build verif
+
+package nilness
+
+// Export hooks for the verification harness in /verif (build tag "verif").
+// They expose the unexported nilness semilattice read-only; nothing in the
+// package calls them.
+
+// VerifLattice is the semilattice over ValueNilness used by the analysis.
+type VerifLattice = lattice
+
+// VerifLatticeMerge returns the entry of the 5-point merge table for a and b.
+func VerifLatticeMerge(a, b Nilness) Nilness { return latticeMerge[a][b] }
+
+// VerifNilnessNames returns the names of the five lattice points, indexed by
+// their numeric value.
+func VerifNilnessNames() []string {
+	out := make([]string, len(latticeMerge))
+	for i := range out {
+		out[i] = Nilness(i).String()
+	}
+	return out
+}
